@@ -441,6 +441,9 @@ func (w *World) Project() J {
 	out["fr"] = fr
 	out["or"] = w.projectOracle(ctx)
 	out["tok"] = w.projectTokens(ctx)
+	if w.Evm != nil {
+		out["evm"] = w.ProjectEvm()
+	}
 	return out
 }
 
@@ -470,7 +473,7 @@ func (w *World) projectOracle(ctx sdk.Context) J {
 	pr := J{}
 	if p := k.GetPrices(ctx); p != nil {
 		for _, it := range p.List {
-			pr[it.Name] = decScaled(it.Value, 2)
+			pr[it.Name] = decScaled(it.Value, 4)
 		}
 	}
 	out["pr"] = pr
@@ -512,7 +515,7 @@ func (w *World) projectOracle(ctx sdk.Context) J {
 			if gc, ok := c.(*oracletypes.GenericClaim); ok && gc.GetPriceClaim() != nil {
 				p := J{}
 				for _, it := range gc.GetPriceClaim().GetPrices().List {
-					p[it.Name] = decScaled(it.Value, 2)
+					p[it.Name] = decScaled(it.Value, 4)
 				}
 				claims = append(claims, J{"by": vc.Name, "kind": "price", "ep": unum(ep), "pr": p})
 			}
